@@ -36,8 +36,10 @@ pub struct Case { pub w: u16, pub h: u16, pub hz: u8, pub ops: Vec<MOp>, pub sma
 fn short(rng: &mut Rng, w: u16, multiline: bool) -> String {
     let len = match rng.below(8) { 0 => 0, 1 => w as u64, 2 => w as u64 + 1, _ => rng.below(w as u64 + 2) };
     let mut s: String = (0..len).map(|_| (b'a' + rng.below(26) as u8) as char).collect();
-    if multiline && rng.chance(1, 5) { let at = rng.below(s.len() as u64 + 1) as usize; s.insert(at, '\n'); }
-    if rng.chance(1, 10) { let at = rng.below(s.len() as u64 + 1) as usize; s.insert_str(at, *rng.pick(&["\x1b[32m", "\x1b[0m"])); }
+    // double-width characters, which wrap early when only one column is left in a row
+    if w >= 2 && rng.chance(1, 8) { s = s.chars().map(|c| if rng.chance(1, 3) { *rng.pick(&['日', '本', '語']) } else { c }).collect(); }
+    if multiline && rng.chance(1, 5) { let at = crate::bar::boundary(&s, rng.below(s.len() as u64 + 1) as usize); s.insert(at, '\n'); }
+    if rng.chance(1, 10) { let at = crate::bar::boundary(&s, rng.below(s.len() as u64 + 1) as usize); s.insert_str(at, *rng.pick(&["\x1b[32m", "\x1b[0m"])); }
     s
 }
 
@@ -152,11 +154,7 @@ pub fn encode(c: &Case) -> String {
 }
 
 fn show_rows(rows: &[String]) -> String { rows.iter().map(|r| r.chars().map(|c| (c as u32).to_string()).collect::<Vec<_>>().join(".")).collect::<Vec<_>>().join("|") }
-fn wrap(line: &str, w: usize) -> Vec<String> {
-    let cs: Vec<char> = crate::bar::plain(line).chars().collect();
-    if cs.is_empty() { return vec![String::new()]; }
-    cs.chunks(w).map(|c| c.iter().collect::<String>().trim_end().to_string()).collect()
-}
+fn wrap(line: &str, w: usize) -> Vec<String> { crate::bar::wrap(line, w) }
 
 struct BarInfo { pb: Option<ProgressBar>, tpl: usize, on_finish: Fin, removed: bool, hidden: bool, finished_visible_render: Option<Vec<String>>, ever_drawn: bool, acceptable: Vec<Vec<String>> }
 
